@@ -73,7 +73,7 @@ static void compare(const std::string& model, const std::string& what, const std
    const double e = std::isfinite(lib) ? static_cast<double>(fabsl(lib - ref) / std::max(scale, (LD)1e-300)) : std::numeric_limits<double>::quiet_NaN();
    J w = c; w.str("quantity", what).d("lib", lib).ld("ref", ref).ld("sum_abs_terms", scale).d("err", e);
    out->cell(model + "|" + what + "|" + cell, e, &w);
-   if (!(e <= 1e-8)) out->fail("C03:" + model + ":" + what + keysuffix, what + ": library " + vh::num(lib) + " vs independent " + vh::num(ref) + ", deviation " + vh::num(e) + " of sum|terms|", w);
+   if (!(e <= 1e-8)) out->fail("C03:" + model + ":" + what + keysuffix, what + ": library " + vh::num(lib) + " vs independent " + vh::num(ref) + ", deviation " + vh::num(e) + " of sum|terms|", w, e);
 }
 
 static void check_mssm(const MSSMNoFV_onshell& m, const J& c, const std::string& how) {
@@ -104,6 +104,15 @@ static void case_mssm(vh::Rng& r) {
       const Ref1L rr = mssm_ref(t.get_g1(), t.get_g2(), t.get_vd(), t.get_vu(), t.get_Mu(), t.get_MassB(), t.get_MassWB(), t.get_ml2(1, 1), t.get_me2(1, 1), std::sqrt(2.0) * t.get_MM() / t.get_vd(), t.get_TYe(1, 1), t.get_MM());
       if (rr.ok) compare("MSSM", "non-tan-beta-resummed-sum", "onshell-input", calculate_amu_1loop_non_tan_beta_resummed(m), rr.chi0 + rr.cha, rr.s_chi0 + rr.s_cha, c);
    } catch (const Error&) { out->count("non-resummed-spectrum-rejected"); }
+   // a re-used object: the calculated model, some parameters changed through the setters (as in a scan loop), recalculated
+   if (r.chance(0.25)) {
+      MSSMNoFV_onshell u(m);
+      const int what = r.range(4);
+      if (what == 0) u.set_ml2(1, 1, ml[1] * ml[1] * r.LU(0.3, 3)); else if (what == 1) u.set_TB(tb * r.U(0.5, 1.5)); else if (what == 2) { u.set_Mu(mu * r.U(0.5, 2)); u.set_MassWB(m2 * r.U(0.5, 2)); }
+      else { const double k = r.LU(0.5, 4); u.set_Mu(mu * k); u.set_MassB(m1 * k); u.set_MassWB(m2 * k); u.set_ml2(1, 1, ml[1] * ml[1] * k * k); u.set_me2(1, 1, me[1] * me[1] * k * k); }
+      try { u.calculate_masses(); if (!u.get_problems().have_problem()) { J cu = c; cu.i("changed_after_first_calculation", what); check_mssm(u, cu, "re-used-object"); } else out->count("re-used-object-problem"); }
+      catch (const Error&) { out->count("re-used-object-rejected"); }
+   }
    // through the DR-bar -> on-shell conversion
    if (r.chance(0.25)) {
       MSSMNoFV_onshell b(m); b.get_problems().clear();
